@@ -682,7 +682,11 @@ pub fn sheet(r: &mut R) -> String {
                 // node without parent, first judged equivalent, turned out to be reachable through `a > > b`)
                 "> > html{color:#010203}", "> > > body{background-color:#040506}", ">>>>>> em{color:#070809}", "> > > > > > li{color:#0a0b0c}",
                 "div > > p{color:#0d0e0f}", "* > > > > *{background-color:#101112}", "> p{color:#131415}", "> > > > p{color:#161718}",
-                "ul > > > > > li{color:#191a1b}", "> html{color:#1c1d1e}"])),
+                "ul > > > > > li{color:#191a1b}", "> html{color:#1c1d1e}",
+                // escapes of six hex digits directly followed by a further hex digit, which belongs to the name (`\0000691` is
+                // `i1`, `\000074d` is `td`; added after a mutation of the six-digit limit survived)
+                "#\\0000691{background-color:#1f2021}", "\\000074d{color:#222324}", "\\000064d{color:#252627}", ".\\000063-d{color:#28292a}",
+                "#\\0000692{color:#2b2c2d}", "\\00006ci{color:#2e2f30}"])),
             2 => {
                 // generated content on every kind of element, table parts included (insert_child at the start and at the end)
                 let el = *r.pick(&[&"p", &"div", &"li", &"ul", &"ol", &"table", &"tr", &"td", &"th", &"tbody", &"blockquote", &"h1", &"h2", &"a", &"span", &"em", &"pre", &"dl", &"dt", &"dd", &"code", &"strong"]);
